@@ -25,7 +25,7 @@ BOUNDS = {
 ASSUMPTIONS = [
     "mdoc floats are restricted to values whose repr is positional (1e-4 <= |v| < 1e16); values contain no '=' and titles no inner brackets",
     "an integer that comes back as the numerically equal float (81000 -> 81000.0) is not judged as a changed value; a number that comes back as text (or vice versa) is",
-    "all images of a document carry the same keys; tilt angles are distinct",
+    "all images of a document carry the same keys; tilt angles within an mdoc are distinct (a tilt text file may repeat a value)",
 ]
 BUDGET_S = {"quick": 400, "thorough": 3000}
 
@@ -409,7 +409,7 @@ NUM_SPELL = [lambda v: repr(float(v)), lambda v: (str(int(v)) if float(v).is_int
 def loader_cases(tier):
     ns = [1, 2, 3, 4] if tier == "quick" else [1, 2, 3, 4, 5, 80]
     cases = []
-    for kind in ("tlt-sorted", "tlt-unsorted", "dose", "ctffind4", "gctf", "gctf-phase", "gctf-extra", "mdoc-dose-prior", "array"):
+    for kind in ("tlt-sorted", "tlt-unsorted", "tlt-repeated", "dose", "ctffind4", "gctf", "gctf-phase", "gctf-extra", "mdoc-dose-prior", "array"):
         for n in ns:
             for spell in range(len(NUM_SPELL)):
                 for nl in (True, False):
@@ -442,10 +442,13 @@ def exec_loader(case, obs):
     sp = NUM_SPELL[spell]
     end = "\n" if nl else ""
     obs.nontrivial = n >= 2
-    if kind in ("tlt-sorted", "tlt-unsorted", "dose"):
+    if kind in ("tlt-sorted", "tlt-unsorted", "tlt-repeated", "dose"):
         vals = values(n, seed, -30.0, 7.5) if kind != "dose" else values(n, seed, 1.5, 3.0)
         if kind == "tlt-unsorted":
             vals = vals[1::2] + vals[0::2][::-1]
+        if kind == "tlt-repeated":
+            # a bidirectional series records the starting angle twice: the file holds n+1 numbers, one of them repeated
+            vals = vals[: (n + 1) // 2] + [vals[(n - 1) // 2]] + vals[(n + 1) // 2:]
         if kind == "dose":
             vals = vals[::-1]  # doses come in acquisition order, any order
         with open("v.txt", "w") as f:
@@ -458,7 +461,10 @@ def exec_loader(case, obs):
         else:
             got = obs.lib("tlt_load", ioutils.tlt_load, os.path.abspath("v.txt"))
             want = np.sort(np.float32(written))
-            obs.check(np.allclose(np.asarray(got, dtype=float), want, rtol=1e-6, atol=1e-6), "tlt_load", "tilt-angles-ascending", lambda: f"{got} vs {want}", cls="text-file")
+            same_n = obs.check(len(np.atleast_1d(got)) == len(written), "tlt_load", "tilt-angle-count",
+                               lambda: f"{len(np.atleast_1d(got))} numbers returned, the file holds {len(written)}", cls="text-file")
+            if same_n:
+                obs.check(np.allclose(np.asarray(got, dtype=float), want, rtol=1e-6, atol=1e-6), "tlt_load", "tilt-angles-ascending", lambda: f"{got} vs {want}", cls="text-file")
             if kind == "tlt-unsorted":
                 got2 = obs.lib("tlt_load", ioutils.tlt_load, os.path.abspath("v.txt"), sort_angles=False)
                 obs.check(np.allclose(np.asarray(got2, dtype=float), np.float32(written), rtol=1e-6, atol=1e-6), "tlt_load", "tilt-angles-file-order",
